@@ -22,7 +22,12 @@ IMPORTS = ("From Coq Require Import String.\n"
            "Hdl21.Spec.Nets Hdl21.Spec.WfDesign Hdl21.Base.Package Hdl21.Corr.C03 Hdl21.Corr.C01 Hdl21.Corr.C05.\n"
            "Open Scope string_scope.")
 MAX_TERMINALS = 120
-KINDS = ["portref", "noconn_named", "noconn_unnamed", "bundle", "array", "pair"]
+KINDS = ["portref", "noconn_named", "noconn_unnamed", "noconn_member", "bundle", "array", "pair"]
+# further coverage targets measured from the trace (see stats()):
+#   pending_pair   an instance-bundle member whose plain name is the name of an Instance Bundle still waiting in module.instbundles
+#   pending_any    any insertion whose plain name is the name of an object still waiting in instarrays / instbundles / bundles
+#   uppercase      a collision provoked on a plain name that contains an upper-case letter
+EXTRA = ["pending_pair", "pending_any", "uppercase"]
 
 
 # ------------------------------------------------------------------------------------------------ bundles
@@ -175,7 +180,7 @@ def events_of(out):
             elif kind == "noconn":
                 site, cls = ["noconn", t["ncname"], t["inst"], t["port"]], ("noconn_unnamed" if t["ncname"] is None else "noconn_named")
                 if len(segs) > 1:      # noconn_array_bundle: a no-connect on a bundle-valued port of an instance array, one signal per member
-                    site = ["noconn_member", t["ncname"], t["inst"], t["port"], segs[1:]]
+                    site, cls = ["noconn_member", t["ncname"], t["inst"], t["port"], segs[1:]], "noconn_member"
             elif kind == "bundle":
                 site, cls = ["bundle", t["bundle"], "_".join(segs[1:]) if len(segs) >= 2 else "?"], "bundle"
             elif kind == "arrays":
@@ -193,19 +198,41 @@ def c_event(mod, site, e):
     fl = e.get("flat")
     opt = lambda s: "None" if s is None else f"(Some {cstr(s)})"
     ns = e["ns"] if e.get("ns") is not None else ((fl or {}).get("avoid") or [])
+    held = held_of(e, ns)
     return ("{| ev_mod := %s; ev_site := %s; ev_hasflat := %s; ev_segs := %s; ev_avoid := %s; ev_maxlen := %s; ev_res := %s; "
-            "ev_added := %s; ev_ns := %s |}") % (
+            "ev_added := %s; ev_ns := %s; ev_held := %s |}") % (
         cstr(mod), c_site(site), cbool(fl is not None), clist(fl["segs"] if fl else [], cstr),
         "None" if (fl is None or fl["avoid"] is None) else f"(Some {clist(fl['avoid'], cstr)})",
-        cz(fl["maxlen"] if fl else 0), opt(fl["res"] if fl else None), opt(e.get("added")), clist(ns, cstr))
+        cz(fl["maxlen"] if fl else 0), opt(fl["res"] if fl else None), opt(e.get("added")), clist(ns, cstr), clist(held, cstr))
+
+
+CONTAINERS = ("ports", "signals", "instances", "instarrays", "instbundles", "bundles")
+
+
+def held_of(e, ns):
+    """names held by the per-type containers just before the insertion (an event of a raising flatname has no insertion:
+    the namespace handed to flatname stands in)"""
+    if e.get("ctr") is None:
+        return list(ns)
+    return [k for c in CONTAINERS for k in e["ctr"].get(c, [])]
+
+
+def plain_name(e):
+    fl = e.get("flat")
+    return "_".join(fl["segs"]) if fl is not None else e.get("added")
+
+
+def pending_of(e, containers=("instarrays", "instbundles", "bundles")):
+    return [k for c in containers for k in (e.get("ctr") or {}).get(c, [])]
 
 
 def provoked(e):
     """a collision was provoked at this insertion: the plain joined name was already bound in the Module"""
     fl = e.get("flat")
     if fl is not None:
-        return "_".join(fl["segs"]) in (e.get("ns") if e.get("ns") is not None else (fl["avoid"] or []))
-    return e.get("added") in (e.get("ns") or [])
+        ns = e.get("ns") if e.get("ns") is not None else (fl["avoid"] or [])
+        return "_".join(fl["segs"]) in ns or "_".join(fl["segs"]) in held_of(e, ns)
+    return e.get("added") in (e.get("ns") or []) or e.get("added") in held_of(e, e.get("ns") or [])
 
 
 # ------------------------------------------------------------------------------------------------ expected sites
@@ -232,6 +259,10 @@ def expected_sites(design, evs):
             for port, e in x["conns"]:
                 if e[0] == "nc":
                     for nm in names:
+                        if port in bp and x["n"] > 0:
+                            # noconn_array_bundle: one signal per scalar member, no implicit bundle instance
+                            exp += [(mn, ["noconn_member", e[2], nm, port, pth]) for pth, w in bpaths(design, bp[port])]
+                            continue
                         exp.append((mn, ["noconn", e[2], nm, port]))
                         if port in bp:
                             implicit_bundles.append((("noconn", e[2], nm, port), bp[port]))
@@ -324,32 +355,46 @@ def designer_names(md):
             [b[0] for b in md.get("bundles", [])])
 
 
-def candidates(design, md):
-    """(hot, cold): every name the elaborator WILL build in this module before collision suffixes (implicit signals of
-    unconnected / no-connected ports, array elements, pair members, flattened bundle members), and the inst_port names of
-    ordinarily connected ports (never built: decoys)"""
-    hot, cold = [], []
+def candidates_by_class(design, md):
+    """({class: names}, cold): every name the elaborator WILL build in this module before collision suffixes, by the kind of
+    naming site (implicit signals of unconnected ports, of un-named / named no-connects, per-member names under such a port
+    when it is bundle-valued, array elements, pair members, flattened bundle members), and the inst_port names of ordinarily
+    connected ports (never built: decoys)"""
+    hot = dict(implicit=[], nc_unnamed=[], nc_named=[], member=[], member_array=[], array=[], pair=[], bundle=[])
+    cold = []
     for x in md["insts"]:
         bp = bports(design, x["of"])
         names = [x["name"]]
         if x.get("pair"):
             names = [f"{x['name']}_p", f"{x['name']}_n"]
-            hot += names
+            hot["pair"] += names
         if x["n"] > 0:
-            hot += [f"{x['name']}_{k}" for k in range(x["n"])]
+            hot["array"] += [f"{x['name']}_{k}" for k in range(x["n"])]
         conns = dict((port, e) for port, e in x["conns"])
         for nm in names:
             for port in all_port_names(design, x["of"]):
                 e = conns.get(port)
-                implicit = e is None or (e[0] == "nc" and e[2] is None)
                 base = e[2] if (e is not None and e[0] == "nc" and e[2] is not None) else f"{nm}_{port}"
-                tgt = hot if (implicit or (e is not None and e[0] == "nc")) else cold
-                tgt.append(base)
+                if e is None:
+                    cls = "implicit"
+                elif e[0] == "nc":
+                    cls = "nc_unnamed" if e[2] is None else "nc_named"
+                else:
+                    cls = None
+                (hot[cls] if cls else cold).append(base)
                 if port in bp:
-                    tgt += [f"{base}_{'_'.join(p)}" for p, w in bpaths(design, bp[port])]
+                    # under a no-connect on an Instance ARRAY these are built by portrefs.noconn_array_bundle (a site of its own)
+                    mcls = "member_array" if (x["n"] > 0 and cls in ("nc_unnamed", "nc_named")) else "member"
+                    (hot[mcls] if cls else cold).extend(f"{base}_{'_'.join(p)}" for p, w in bpaths(design, bp[port]))
     for b, k, port in md.get("bundles", []):
-        hot += [f"{b}_{'_'.join(p)}" for p, w in bpaths(design, k)]
-    return sorted(set(hot)), sorted(set(cold) - set(hot))
+        hot["bundle"] += [f"{b}_{'_'.join(p)}" for p, w in bpaths(design, k)]
+    allhot = set(n for v in hot.values() for n in v)
+    return {c: sorted(set(v)) for c, v in hot.items() if v}, sorted(set(cold) - allhot)
+
+
+def candidates(design, md):
+    hot, cold = candidates_by_class(design, md)
+    return sorted(set(n for v in hot.values() for n in v)), cold
 
 
 def add_ref_groups(design, r, tries=3):
@@ -447,21 +492,96 @@ def nc_sites(md):
     return sorted(s)
 
 
+def dissolvables(design, md):
+    """(rename kind, name, class, plain names of its parts) of the objects a pass dissolves: Instance Bundles, Instance Arrays, Bundle Instances"""
+    out = []
+    for x in md["insts"]:
+        if x.get("pair"):
+            out.append(("inst", x["name"], "pair", [f"{x['name']}_p", f"{x['name']}_n"]))
+        elif x["n"] > 0:
+            out.append(("inst", x["name"], "array", [f"{x['name']}_{k}" for k in range(x["n"])]))
+    for b, k, port in md.get("bundles", []):
+        out.append(("bundle", b, "bundle", [f"{b}_{'_'.join(p)}" for p, w in bpaths(design, k)]))
+    return out
+
+
+def case_variant(n, r):
+    v = r.choice([n.upper(), n.capitalize(), n[:-1] + n[-1:].upper(), n.swapcase()])
+    return v
+
+
+def recase(design, r, p=0.5):
+    """Designer names with upper-case letters (Xi, Arr, NC, P): signals, ports, instances, bundle instances of every reachable
+    Module and the member names of the bundle definitions.  Every name stays distinct from the others of its Module."""
+    d = copy.deepcopy(design)
+    n = 0
+    for mi in reachable(d):
+        md = d["mods"][mi]
+        objs = ([("sig", s[0]) for s in md["sigs"]] + [("port", q[0]) for q in md["ports"]] +
+                [("inst", x["name"]) for x in md["insts"]] + [("bundle", b[0]) for b in md.get("bundles", [])])
+        for kind, old in objs:
+            if r.random() >= p:
+                continue
+            new = case_variant(old, r)
+            if new == old or new in designer_names(md):
+                continue
+            rename(d, mi, kind, old, new)
+            n += 1
+    members = sorted({nm for bd in d.get("bdefs", []) for nm, _ in bd["sigs"]} | {nm for bd in d.get("bdefs", []) for nm, _ in bd.get("subs", [])})
+    mp = {m: m.upper() for m in members if r.random() < p}
+    if mp:
+        for bd in d["bdefs"]:
+            bd["sigs"] = [[mp.get(nm, nm), w] for nm, w in bd["sigs"]]
+            bd["subs"] = [[mp.get(nm, nm), k] for nm, k in bd.get("subs", [])]
+        for md in d["mods"]:
+            map_exprs(md, lambda e: ["bmem", e[1], [mp.get(q, q) for q in e[2]]] if e[0] == "bmem" else e)
+        n += len(mp)
+    return d, n
+
+
 def adversarial(design, r, rounds=2):
     d = copy.deepcopy(design)
     renames = 0
     for _ in range(rounds):
         for mi in reachable(d):
             md = d["mods"][mi]
-            hot, cold = candidates(d, md)
+            # a dissolved object named like a PART of another dissolved object (Instance Bundle `d_p` beside Instance Bundle `d`):
+            # while the one is replaced the other is still pending in its container
+            for _ in range(2):
+                dis = dissolvables(d, md)
+                if len(dis) < 2 or r.random() >= 0.6:
+                    continue
+                byc = {}
+                for t in dis:
+                    byc.setdefault(t[2], []).append(t)
+                multi = [c for c in sorted(byc) if len(byc[c]) >= 2]
+                if multi and r.random() < 0.75:      # two of one kind: both leave in the same pass
+                    x, y = r.sample(byc[r.choice(multi)], 2)
+                else:
+                    x, y = r.sample(dis, 2)
+                new = r.choice(x[3]) + "_" * r.choice([0, 0, 0, 1])
+                if new not in designer_names(md) and y[1] in designer_names(md):
+                    rename(d, mi, y[0], y[1], new)
+                    renames += 1
+            hotc, cold = candidates_by_class(d, md)
+            hot = sorted(set(n for v in hotc.values() for n in v))
             if not hot and not cold:
                 continue
             objs = ([("sig", s[0]) for s in md["sigs"]] * 3 + [("port", p[0]) for p in md["ports"]] +
                     [("inst", x["name"]) for x in md["insts"]] + [("bundle", b[0]) for b in md.get("bundles", [])] +
                     [("nc", s) for s in nc_sites(md)] * 2)
-            for _ in range(r.randint(1, 4)):
-                kind, old = r.choice(objs)
-                new = r.choice(hot if (hot and (not cold or r.random() < 0.85)) else cold) + "_" * r.choice([0, 0, 0, 1, 2])
+            # per kind of naming site present in the Module one directed attempt with probability 1/2 (no kind is crowded out
+            # by the many bundle members), then 1-3 undirected ones (any kind, decoys, no-connect names)
+            plan = [c for c in sorted(hotc) if r.random() < 0.5] + [None] * r.randint(1, 3)
+            for c in plan:
+                kind, old = r.choice(objs if c is None else ([o for o in objs if o[0] != "nc"] or objs))
+                if c is not None:
+                    pool = hotc[c]
+                else:
+                    pool = hotc[r.choice(sorted(hotc))] if (hot and (not cold or r.random() < 0.85)) else cold
+                new = r.choice(pool) + "_" * r.choice([0, 0, 0, 1, 2])
+                if r.random() < 0.08:       # differs from what the elaborator builds by case alone: no clash
+                    new = new.swapcase()
                 if kind == "nc":
                     if r.random() < 0.4:      # a no-connect named like an existing designer object
                         new = r.choice(designer_names(md))
@@ -521,7 +641,7 @@ def gen_structured(r):
 
     def nc():
         site[0] += 1
-        return ["nc", site[0], r.choice([None, None, f"nc{site[0]}", "ncx", "s0", "ob_x"])]
+        return ["nc", site[0], r.choice([None, None, f"nc{site[0]}", "ncx", "s0", "ob_x", "NC", "Ncx"])]
     feats = set(f for f in ("plain", "ref", "ncb", "array", "pair", "probe") if r.random() < 0.6) or {"plain", "pair"}
     if "plain" in feats:
         top["insts"].append(dict(name="i0", n=0, of=["mod", 0], conns=[["a", sc()], ["b", sc()], ["bp", ["bun", "ob"]]]))
@@ -534,13 +654,21 @@ def gen_structured(r):
     if "array" in feats:
         n = r.choice([2, 3])
         a = r.choice([["sig", "s2"], sc()]) if n == 2 else sc()
-        top["insts"].append(dict(name="arr", n=n, of=["mod", 0], conns=[["a", a], ["b", r.choice([sc(), nc()])],
-                                                                           ["bp", ["bun", r.choice([b[0] for b in top["bundles"] if b[1] == k])]]]))
+        # the bundle-valued port of the array: a bundle instance, or a no-connect (named or not) - the sixth naming site,
+        # portrefs.noconn_array_bundle, which invents one signal per scalar member
+        bpc = nc() if r.random() < 0.5 else ["bun", r.choice([b[0] for b in top["bundles"] if b[1] == k])]
+        top["insts"].append(dict(name="arr", n=n, of=["mod", 0], conns=[["a", a], ["b", r.choice([sc(), nc()])], ["bp", bpc]]))
+        if r.random() < 0.4:      # a second Instance Array in the same Module
+            top["insts"].append(dict(name="arq", n=2, of=["mod", 1], conns=[["a", sc()], ["b", r.choice([sc(), nc()])]]))
     if "pair" in feats:
         top["insts"].append(dict(name="pr", n=0, pair=True, of=["mod", 1],
                                  conns=[["a", ["bun", "dd"]], ["b", r.choice([sc(), nc()])]]))
         top["insts"].append(res(["bmem", "dd", ["p"]], sc()))
         top["insts"].append(res(["bmem", "dd", ["n"]], sc()))
+        # further Instance Bundles of the same Module: while one is replaced the others are still pending in module.instbundles
+        for j in range(r.choice([0, 1, 1, 2])):
+            top["insts"].append(dict(name=f"pq{j}", n=0, pair=True, of=["mod", 1],
+                                     conns=[["a", r.choice([["bun", "dd"], sc()])], ["b", r.choice([sc(), sc(), nc()])]]))
     if "probe" in feats or True:
         for p, wd in bpaths(design, k):
             for e in bits(["bmem", "ob", p], wd):
@@ -575,6 +703,33 @@ def corpus():
         # a no-connect named like the instance array beside it, and like its elements
         top([dict(name="arr", n=2, of=["mod", 0], conns=[["a", ["nc", 1, "arr_1"]], ["b", ["nc", 2, "arr"]]])], [["y", 1]]),
     ]
+    # two Instance Bundles `d_p` and `d`, in both declaration orders: the member `d_p` invented for `d` meets the Instance Bundle
+    # `d_p` that is still pending in module.instbundles (seeded C05r3-A: its name had already left the namespace, `_add` deleted it)
+    for rev in (False, True):
+        d = top([dict(name="d_p", n=0, pair=True, of=["mod", 0], conns=[["a", ["sig", "x2"]], ["b", ["sig", "y2"]]]),
+                 dict(name="d", n=0, pair=True, of=["mod", 0], conns=[["a", ["sig", "x1"]], ["b", ["sig", "y1"]]])],
+                [["x1", 1], ["y1", 1], ["x2", 1], ["y2", 1]])
+        d["mods"][1]["rev"] = rev
+        out.append(d)
+    # a no-connect (un-named, named) on a bundle-valued port of an Instance Array beside designer signals named
+    # <array>_<port>_<member> / <no-connect>_<member> (seeded C05r3-B: the per-member names were not checked against the Module)
+    childb = dict(name="InnerB", ports=[["z", 1, "inout"]], sigs=[], bundles=[["b", 0, True]],
+                  insts=[dict(name="r", n=0, of=["prim", "R", 1], conns=[["p", ["bmem", "b", ["y"]]], ["n", ["sig", "z"]]])])
+    for rev in (False, True):
+        d = top([dict(name="arr", n=2, of=["mod", 0], conns=[["b", ["nc", 1, None]], ["z", ["sig", "z"]]]),
+                 dict(name="arq", n=2, of=["mod", 0], conns=[["b", ["nc", 2, "nc"]], ["z", ["sig", "z"]]]),
+                 dict(name="u", n=0, of=["mod", 1], conns=[["a", ["sig", "arr_b_y"]], ["b", ["sig", "nc_y"]]])],
+                [["z", 1], ["arr_b_y", 1], ["nc_y", 1]], mods=[childb, inner])
+        d["mods"][2]["rev"] = rev
+        out.append(d)
+    # the same clashes on names with upper-case letters (seeded C05r3-C: flatname compared the candidate with lower-cased keys)
+    out.append(top([dict(name="Xi", n=0, of=["mod", 0], conns=[["a", ["nc", 1, None]], ["b", ["nc", 2, "NC"]]]),
+                    dict(name="user", n=0, of=["mod", 0], conns=[["a", ["sig", "Xi_a"]], ["b", ["sig", "NC"]]]),
+                    dict(name="Arr", n=2, of=["mod", 0], conns=[["a", ["sig", "s0"]], ["b", ["sig", "s1"]]]),
+                    dict(name="Arr_0", n=0, of=["mod", 0], conns=[["a", ["sig", "s1"]], ["b", ["sig", "s0"]]]),
+                    dict(name="Dp", n=0, pair=True, of=["mod", 0], conns=[["a", ["sig", "s0"]], ["b", ["sig", "NC"]]]),
+                    dict(name="Dp_p", n=0, of=["mod", 0], conns=[["a", ["sig", "Xi_a"]], ["b", ["sig", "s0"]]])],
+                   [["s0", 1], ["s1", 1], ["Xi_a", 1], ["NC", 1]]))
     # flattened member X.y of one bundle port meets the bundle port X_y of the same module (clash in the instance's connections)
     for rev in (False, True):
         for order in (0, 1):
@@ -594,12 +749,14 @@ def corpus():
 # ------------------------------------------------------------------------------------------------ flatname stream
 def flat_cases(seed, n):
     cases = []
-    base = ["a", "b", "i0", "p", "x_", "arr", "0", "1", "", "_", "a_b"]
+    base = ["a", "b", "i0", "p", "x_", "arr", "0", "1", "", "_", "a_b", "A", "Xi", "P", "NC", "Arr", "aB"]
     for k in range(n):
         r = core.rng(seed, "C05", "flatname", k)
         segs = [r.choice(base) for _ in range(r.randint(1, 3))]
         j = "_".join(segs)
         avoid = [j + "_" * i for i in range(r.randint(0, 4)) if r.random() < 0.85] + [r.choice(base) for _ in range(r.randint(0, 3))]
+        if r.random() < 0.15:       # names that differ from the candidates by case alone are different names
+            avoid += [j.swapcase(), j.lower() + "_"]
         r.shuffle(avoid)
         avoid = list(dict.fromkeys(avoid))
         u = r.random()
@@ -623,8 +780,12 @@ def run_flat(run, seed, n):
     bad = core.coq_eval_cases("C05", "flatname", IMPORTS, "flat_case", cases, "run_cases chk_flat", chunk=300)
     collided = sum(1 for j in jobs if j["avoid"] and "_".join(j["segs"]) in j["avoid"])
     raised = sum(1 for o in outs if o["res"] is None)
+    upper = sum(1 for j in jobs if j["avoid"] and "_".join(j["segs"]) in j["avoid"] and any(ch.isupper() for ch in "_".join(j["segs"])))
+    if upper == 0:
+        run.violation("C05:coverage:flatname:uppercase", "no flatname case whose plain name has an upper-case letter and is in `avoid` (fail closed)",
+                      dict(kind="coverage", stream="flatname"), found_input=False)
     run.stream("flatname", len(jobs), len({json.dumps(j, sort_keys=True) for j in jobs if j["avoid"] and "_".join(j["segs"]) in j["avoid"]}),
-               collisions=collided, raised=raised,
+               collisions=collided, raised=raised, uppercase_collisions=upper,
                rule="non-trivial = the plain joined name is in `avoid`; distinct by (segments, avoid, maxlen)")
     for i, code in sorted(bad, key=lambda ic: len(json.dumps(jobs[ic[0]])))[:2]:
         what = ("flatname returned a name that is in `avoid`" if code == 1 else "flatname differs from the model")
@@ -651,8 +812,9 @@ def report(run, stream, designs, outs, codes, limit=2):
     v3 = [i for i, c in order if c == 3]
     for i in v1[:limit]:
         evs = events_of(outs[i])
-        captured = [(m, s, e.get("added")) for m, s, e, c in evs if e.get("added") is not None and e.get("added") in (e.get("ns") or [])]
-        what = ("an invented name captured a designer's name: " + json.dumps(captured[:3]) if captured else
+        captured = [(m, s, e.get("added")) for m, s, e, c in evs if e.get("added") is not None and
+                    (e.get("added") in (e.get("ns") or []) or e.get("added") in held_of(e, e.get("ns") or []))]
+        what = ("an invented name captured a name the Module held (namespace or per-type container): " + json.dumps(captured[:3]) if captured else
                 "exported package lost / re-bound a designer name or its nets differ from the written design")
         run.violation("C05:design:" + json.dumps(designs[i], sort_keys=True), what,
                       dict(kind="impl-violates-spec", stream=stream, case=designs[i], impl=outs[i], failing_cases=len(v1),
@@ -672,37 +834,46 @@ def report(run, stream, designs, outs, codes, limit=2):
 def stats(designs, outs, codes):
     prov = {k: 0 for k in KINDS}
     ins = {k: 0 for k in KINDS}
+    extra = {k: 0 for k in EXTRA}
     for o in outs:
         for m, s, e, c in events_of(o):
             ins[c] += 1
             if provoked(e):
                 prov[c] += 1
+                pn = plain_name(e) or ""
+                if any(ch.isupper() for ch in pn):
+                    extra["uppercase"] += 1
+                if pn in pending_of(e):
+                    extra["pending_any"] += 1
+                if c == "pair" and pn in pending_of(e, ("instbundles",)):
+                    extra["pending_pair"] += 1
     raised = sum(1 for i, o in enumerate(outs) if o.get("pkg") is None)
-    return prov, ins, raised
+    return prov, ins, raised, extra
 
 
 def run_designs(run, stream, designs, min_collisions=True):
     outs, codes = evaluate(designs, stream)
-    prov, ins, raised = stats(designs, outs, codes)
+    prov, ins, raised, extra = stats(designs, outs, codes)
     feats = {}
     for d in designs:
         for f, v in features(d).items():
             feats[f] = feats.get(f, 0) + int(v)
     with_collision = len({json.dumps(d, sort_keys=True) for d, o in zip(designs, outs) if any(provoked(e) for m, s, e, c in events_of(o))})
     hooks_bad = [o["hooks"] for o in outs if not o.get("hooks", {}).get("ok", False)]
-    run.stream(stream, len(designs), with_collision, collisions_provoked=prov, insertions=ins, raised_by_impl=raised,
+    run.stream(stream, len(designs), with_collision, collisions_provoked=prov, collisions_special=extra, insertions=ins, raised_by_impl=raised,
                raised_fraction=round(raised / max(1, len(designs)), 4), features=feats,
-               rule="non-trivial = at least one insertion whose plain invented name was already bound in the Module "
+               rule="non-trivial = at least one insertion whose plain invented name was already held by the Module "
                     "(a collision really provoked); distinct by design")
     if hooks_bad:
         run.violation("C05:hooks", f"anchored naming functions missing in the tree under test: {hooks_bad[0].get('missing')}",
                       dict(kind="tie-missing", hooks=hooks_bad[0]), found_input=False)
     report(run, stream, designs, outs, {i: c for i, c in codes.items() if c != 4}, limit=None if stream == "corpus" else 2)
     if min_collisions:
-        for k in min_collisions if isinstance(min_collisions, (list, tuple)) else KINDS:
-            if prov[k] == 0:
-                run.violation(f"C05:coverage:{stream}:{k}", f"no collision provoked at naming site class {k} (fail closed)",
-                              dict(kind="coverage", stream=stream, insertions=ins, provoked=prov), found_input=False)
+        for k in min_collisions if isinstance(min_collisions, (list, tuple)) else KINDS + EXTRA:
+            n = prov[k] if k in prov else extra[k]
+            if n == 0:
+                run.violation(f"C05:coverage:{stream}:{k}", f"no collision provoked at naming site class / target {k} (fail closed)",
+                              dict(kind="coverage", stream=stream, insertions=ins, provoked=prov, special=extra), found_input=False)
         if raised > 0.25 * len(designs):
             run.violation(f"C05:coverage:{stream}:raised", f"{raised} of {len(designs)} designs raised: the stream is mostly vacuous",
                           dict(kind="coverage", stream=stream), found_input=False)
@@ -721,7 +892,7 @@ def run(run, tier, seed, replay=None):
         return
     # corpus
     cp = corpus()
-    run_designs(run, "corpus", cp, min_collisions=["noconn_named", "array"])
+    run_designs(run, "corpus", cp, min_collisions=["noconn_named", "noconn_unnamed", "noconn_member", "array", "pair", "pending_pair", "uppercase"])
     # flatname
     run_flat(run, seed, 300 if quick else 4000)
     # adversarial gen_design
@@ -737,11 +908,14 @@ def run(run, tier, seed, replay=None):
             nskip += 1
             continue        # the net-partition evaluation in Coq is super-quadratic in the number of leaf terminals
         add_ref_groups(base, r)
+        if r.random() < 0.5:
+            base, n = recase(base, r)
+            nren += n
         adv, n = adversarial(base, r)
         nren += n
         designs.append(with_order(adv, False))
         designs.append(with_order(adv, True))
-    outs, codes = run_designs(run, "adversarial", designs, min_collisions=["portref", "noconn_named", "noconn_unnamed", "array"])
+    outs, codes = run_designs(run, "adversarial", designs, min_collisions=["portref", "noconn_named", "noconn_unnamed", "array", "uppercase"])
     run.coverage["streams"]["adversarial"]["renames"] = nren
     run.coverage["streams"]["adversarial"]["skipped_more_than_%d_terminals" % MAX_TERMINALS] = nskip
     run.sample(dict(stream="adversarial", design=designs[len(designs) // 2]))
@@ -752,9 +926,12 @@ def run(run, tier, seed, replay=None):
     while len(designs) < 2 * nbase:
         r = core.rng(seed, "C05", "structured", k)
         k += 1
-        adv, n = adversarial(gen_structured(r), r, rounds=r.choice([1, 2, 2]))
+        base = gen_structured(r)
+        if r.random() < 0.5:
+            base, _ = recase(base, r)
+        adv, n = adversarial(base, r, rounds=r.choice([1, 2, 2]))
         designs.append(with_order(adv, False))
         designs.append(with_order(adv, True))
-    run_designs(run, "structured", designs, min_collisions=KINDS)
+    run_designs(run, "structured", designs, min_collisions=KINDS + EXTRA)
     run.sample(dict(stream="structured", design=designs[len(designs) // 2]))
     run.coverage["traces_validated_against_impl"] = sum(s["evaluations"] for n, s in run.coverage["streams"].items() if n != "flatname")
